@@ -230,7 +230,8 @@ func newDateTime(argumentList []Value, location *Time.Location) float64 {
 			return math.NaN()
 		}
 
-		if year >= 0 && year <= 99 {
+		// 15.9.3.1 step 8: the two-digit-year test applies to ToInteger(year).
+		if year = math.Trunc(year); year >= 0 && year <= 99 {
 			year += 1900
 		}
 
